@@ -108,10 +108,125 @@ func NewPlan(seed int64, maxDepth int, allVersions bool) *Plan {
 			}
 		}
 	}
+	p.fixed = append(p.fixed, LargeCollectionCases(allVersions)...)
 	for i := range p.fixed {
 		p.fixed[i].Index = i
 	}
 	return p
+}
+
+// LargeCounts are the element counts around the limits of the protocol-v2 [short] count (a signed
+// or truncated reading of the count shows at 32768 and 65535; 65536 exists from v3 only).
+var LargeCounts = []int{32767, 32768, 65535, 65536}
+
+// LargeCollection builds the (type, value, representation) of one large collection with small
+// elements: kind "list" = list<int> as []int32, "set" = set<varchar> as []string, "map" =
+// map<int,boolean> as map[int32]bool, with n distinct elements / keys.
+func LargeCollection(kind string, n int) (*cqlref.Type, *cqlref.Value, *Repr) {
+	v := cqlref.SeqValue()
+	switch kind {
+	case "list":
+		for i := 0; i < n; i++ {
+			v.Elems = append(v.Elems, cqlref.Int64Value(int64(i)*7-100000))
+		}
+		return cqlref.NewList(cqlref.Scalar(cqlref.Int)), v, (&Repr{K: RSlice, Sub: []*Repr{Leaf(RInt32)}}).Freeze()
+	case "set":
+		for i := 0; i < n; i++ {
+			v.Elems = append(v.Elems, cqlref.BytesValue([]byte(fmt.Sprintf("e%d", i))))
+		}
+		return cqlref.NewSet(cqlref.Scalar(cqlref.Text)), v, (&Repr{K: RSlice, Sub: []*Repr{Leaf(RString)}}).Freeze()
+	default:
+		for i := 0; i < n; i++ {
+			v.Elems = append(v.Elems, cqlref.Int64Value(int64(i)-40000), cqlref.BoolValue(i%3 == 0))
+		}
+		return cqlref.NewMap(cqlref.Scalar(cqlref.Int), cqlref.Scalar(cqlref.Boolean)), v, (&Repr{K: RMap, Sub: []*Repr{Leaf(RInt32), Leaf(RBool)}}).Freeze()
+	}
+}
+
+// LargeCollectionCases is the seed-independent list of large-collection cases: list<int>,
+// set<varchar>, map<int,boolean> with 32767, 32768 and 65535 elements in protocol v2 and v4 (every
+// version with allVersions), and 65536 elements where the count is an [int] (v3+). The v2 case
+// with 65536 elements cannot be expressed; see LargeCollection for building it by hand.
+func LargeCollectionCases(allVersions bool) []Case {
+	vers := []cqlref.Version{cqlref.V2, cqlref.V4}
+	if allVersions {
+		vers = cqlref.AllVersions
+	}
+	var out []Case
+	for _, kind := range []string{"list", "set", "map"} {
+		for _, n := range LargeCounts {
+			t, v, rep := LargeCollection(kind, n)
+			for _, ver := range vers {
+				if ver.ShortCollections() && n > 0xFFFF {
+					continue
+				}
+				out = append(out, Case{Origin: "large-collection", Type: t, Value: v, Repr: rep, Version: ver})
+			}
+		}
+	}
+	return out
+}
+
+// Refill derives from v a DIFFERENT value of the same type that representation rep also holds:
+// every NULL is replaced by a non-NULL value where one that fits can be drawn, scalars are
+// redrawn half of the time, collection lengths are kept (a list/set held in a slice sometimes
+// gets one more element), map keys are kept (so that a Go map filled with the result and then
+// decoded into again ends with the keys of v). It is used to pre-fill a destination before the
+// "re-used destination" decode.
+func Refill(r *mon.Rand, rep *Repr, t *cqlref.Type, v *cqlref.Value, ver cqlref.Version) *cqlref.Value {
+	if v.Null || v.Empty {
+		for try := 0; try < 6; try++ {
+			c := GenValue(r, t, ver, false)
+			if _, err := cqlref.Serialize(t, c, ver); err == nil && !c.Null && Fits(rep, t, c) {
+				return c
+			}
+		}
+		return v
+	}
+	inner := rep
+	for inner.K == RPtr || inner.K == RIface {
+		inner = inner.Sub[0]
+	}
+	sub := func(i int) *Repr {
+		if (inner.K == RSlice || inner.K == RArray) && !inner.PerField {
+			return inner.Sub[0]
+		}
+		if i < len(inner.Sub) {
+			return inner.Sub[i]
+		}
+		return inner.Sub[0]
+	}
+	switch t.Kind {
+	case cqlref.List, cqlref.Set:
+		out := cqlref.SeqValue()
+		for _, e := range v.Elems {
+			out.Elems = append(out.Elems, Refill(r, sub(0), t.Elems[0], e, ver))
+		}
+		if inner.K == RSlice && len(out.Elems) > 0 && len(out.Elems) < 16 && r.Intn(3) == 0 {
+			out.Elems = append(out.Elems, out.Elems[0])
+		}
+		return out
+	case cqlref.Map:
+		out := cqlref.SeqValue()
+		for i := 0; i+1 < len(v.Elems); i += 2 {
+			out.Elems = append(out.Elems, v.Elems[i], Refill(r, inner.Sub[1], t.Elems[1], v.Elems[i+1], ver))
+		}
+		return out
+	case cqlref.Tuple, cqlref.UDT:
+		out := cqlref.SeqValue()
+		for i := range t.Elems {
+			out.Elems = append(out.Elems, Refill(r, sub(i), t.Elems[i], field(v, i), ver))
+		}
+		return out
+	}
+	if r.Bool() {
+		for try := 0; try < 4; try++ {
+			if c := RandomScalar(r, t.Kind, false); Fits(rep, t, c) {
+				return c
+			}
+		}
+	}
+	return v
 }
 
 // NumFixed is the length of the seed-independent part.
